@@ -527,38 +527,9 @@ def _nearest_loop(n):
     return p
 
 
-def r4(ctx):
-    fr = ctx.func("whatshap.pedigree.find_recombination")
-    # blocks[block_id] collects positions of ONE component; events pair block[i-1], block[i]
-    loops = [n for n in walk_function(fr.node) if isinstance(n, ast.For)]
-    block_loops = [n for n in loops if ".items()" in u(n.iter) and isinstance(n.target, ast.Tuple)]
-    comp_loop = [n for n in block_loops if u(n.iter) == "%s.items()" % util.params_of(fr.node)[1]]
-    ok = len(comp_loop) == 1 and any(isinstance(c, ast.Call) and isinstance(c.func, ast.Attribute) and c.func.attr == "append" and u(c.func.value) == "blocks[%s]" % u(comp_loop[0].target.elts[1]) and u(c.args[0]) == u(comp_loop[0].target.elts[0]) for c in ast.walk(comp_loop[0]))
-    ctx.ob(fr.qual, "blocks-group-by-component", ok, fr.loc(), "positions are grouped by their component id" if ok else "positions are not grouped as blocks[component].append(position)")
-    evs = [c for c in ctx.prog.calls_in(fr.node) if u(c.func) == "RecombinationEvent"]
-    ctx.require(len(evs) == 1, "RecombinationEvent construction not found")
-    e = evs[0]
-    a0, a1 = e.args[0], e.args[1]
-    pairing = _event_pairing(fr, loops, e)
-    if pairing is None:
-        ctx.ob(fr.qual, "event-between-consecutive-members-of-one-set", None, fr.loc(e), "cannot tell how the two event positions %s, %s relate to the block" % (u(a0), u(a1)))
-    else:
-        okp, why = pairing
-        ctx.ob(fr.qual, "event-between-consecutive-members-of-one-set", okp, fr.loc(e), "an event is reported between %s and %s, consecutive members of one sorted component (%s)" % (u(a0), u(a1), why) if okp else "event positions %s, %s are not consecutive members of one sorted component (%s)" % (u(a0), u(a1), why))
-    # every phase set is examined: the block loop is only left when all blocks were seen, a block is skipped only when it is too short
-    for lp_ in [n for n in loops if _blocks_loop_var(n) is not None]:
-        fcfg = ctx.cfg(fr)
-        exits = util.lexical_loop_exits(lp_)
-        conts = [n for n in ast.walk(lp_) if isinstance(n, ast.Continue) and _nearest_loop(n) is lp_]
-        blockv = _blocks_loop_var(lp_)
-        badc = [c for c in conts if not any(t.startswith("len(%s)" % blockv) or t.endswith("len(%s)" % blockv) for t, p_ in guard_atoms(fcfg, fcfg.node_of(c)))]
-        okx = not exits and not badc
-        ctx.ob(fr.qual, "every-phase-set-searched-for-recombinations", okx, fr.loc(exits[0]) if exits else (fr.loc(badc[0]) if badc else fr.loc(lp_)), "the loop over blocks has no break/return and skips a block only on its own length" if okx else ("the loop over blocks is left by `%s` before all phase sets were examined: recombinations of the remaining sets are not listed" % u(exits[0]) if exits else "a block is skipped for a reason other than its length"))
-    # per-block values are looked up by position, not taken as a contiguous slice (components interleave)
-    check_block_lookup(ctx, fr)
-    # decoding: father = value % 2, mother = value // 2
-    okl, whyl = decode_layout(e)
-    ctx.ob(fr.qual, "father-bit-low-mother-bit-high", okl, fr.loc(e), "father haplotype = value % 2, mother haplotype = value // 2, first the value at position1 then the one at position2" if okl else "transmission decoding is %s" % whyl)
+def trio_digit_decoding(ctx):
+    """(wr, ok): does write_recombination_list give trio t digit t of the base-4 expansion of every transmission value?
+    ok is True / False / None (a form this reader does not understand)."""
     wr = ctx.func(PH + ".write_recombination_list")
     ok = False
     form_a = False
@@ -599,6 +570,42 @@ def r4(ctx):
                 ok = after and not util.lexical_loop_exits(n) and not any(isinstance(x, ast.Continue) for x in ast.walk(n))
             elif form:
                 ok = False
+    return wr, ok
+
+
+def r4(ctx):
+    fr = ctx.func("whatshap.pedigree.find_recombination")
+    # blocks[block_id] collects positions of ONE component; events pair block[i-1], block[i]
+    loops = [n for n in walk_function(fr.node) if isinstance(n, ast.For)]
+    block_loops = [n for n in loops if ".items()" in u(n.iter) and isinstance(n.target, ast.Tuple)]
+    comp_loop = [n for n in block_loops if u(n.iter) == "%s.items()" % util.params_of(fr.node)[1]]
+    ok = len(comp_loop) == 1 and any(isinstance(c, ast.Call) and isinstance(c.func, ast.Attribute) and c.func.attr == "append" and u(c.func.value) == "blocks[%s]" % u(comp_loop[0].target.elts[1]) and u(c.args[0]) == u(comp_loop[0].target.elts[0]) for c in ast.walk(comp_loop[0]))
+    ctx.ob(fr.qual, "blocks-group-by-component", ok, fr.loc(), "positions are grouped by their component id" if ok else "positions are not grouped as blocks[component].append(position)")
+    evs = [c for c in ctx.prog.calls_in(fr.node) if u(c.func) == "RecombinationEvent"]
+    ctx.require(len(evs) == 1, "RecombinationEvent construction not found")
+    e = evs[0]
+    a0, a1 = e.args[0], e.args[1]
+    pairing = _event_pairing(fr, loops, e)
+    if pairing is None:
+        ctx.ob(fr.qual, "event-between-consecutive-members-of-one-set", None, fr.loc(e), "cannot tell how the two event positions %s, %s relate to the block" % (u(a0), u(a1)))
+    else:
+        okp, why = pairing
+        ctx.ob(fr.qual, "event-between-consecutive-members-of-one-set", okp, fr.loc(e), "an event is reported between %s and %s, consecutive members of one sorted component (%s)" % (u(a0), u(a1), why) if okp else "event positions %s, %s are not consecutive members of one sorted component (%s)" % (u(a0), u(a1), why))
+    # every phase set is examined: the block loop is only left when all blocks were seen, a block is skipped only when it is too short
+    for lp_ in [n for n in loops if _blocks_loop_var(n) is not None]:
+        fcfg = ctx.cfg(fr)
+        exits = util.lexical_loop_exits(lp_)
+        conts = [n for n in ast.walk(lp_) if isinstance(n, ast.Continue) and _nearest_loop(n) is lp_]
+        blockv = _blocks_loop_var(lp_)
+        badc = [c for c in conts if not any(t.startswith("len(%s)" % blockv) or t.endswith("len(%s)" % blockv) for t, p_ in guard_atoms(fcfg, fcfg.node_of(c)))]
+        okx = not exits and not badc
+        ctx.ob(fr.qual, "every-phase-set-searched-for-recombinations", okx, fr.loc(exits[0]) if exits else (fr.loc(badc[0]) if badc else fr.loc(lp_)), "the loop over blocks has no break/return and skips a block only on its own length" if okx else ("the loop over blocks is left by `%s` before all phase sets were examined: recombinations of the remaining sets are not listed" % u(exits[0]) if exits else "a block is skipped for a reason other than its length"))
+    # per-block values are looked up by position, not taken as a contiguous slice (components interleave)
+    check_block_lookup(ctx, fr)
+    # decoding: father = value % 2, mother = value // 2
+    okl, whyl = decode_layout(e)
+    ctx.ob(fr.qual, "father-bit-low-mother-bit-high", okl, fr.loc(e), "father haplotype = value % 2, mother haplotype = value // 2, first the value at position1 then the one at position2" if okl else "transmission decoding is %s" % whyl)
+    wr, ok = trio_digit_decoding(ctx)
     ctx.ob(wr.qual, "two-bits-per-trio-in-trios-order", ok, wr.loc(), "the transmission value is split into base-4 digits in trios order, digit t belongs to trios[t].child" if ok else ("transmission values are not decoded as `% 4` then `// 4` per trio in trios order" if ok is False else "cannot read how write_recombination_list splits the transmission values into per-trio digits"))
     for p_, cells_ in util.row_writes(wr.node):
         for a in [util.resolve_locals(wr.node, e_[1]) for e_ in (cells_ or []) if e_[0] == "one"]:
